@@ -25,7 +25,10 @@ import (
 	"github.com/ontio/ontology/common/config"
 	"github.com/ontio/ontology/core/genesis"
 	"github.com/ontio/ontology/core/ledger"
+	scom "github.com/ontio/ontology/core/store/common"
 	"github.com/ontio/ontology/core/store/ledgerstore"
+	cutils "github.com/ontio/ontology/core/utils"
+	"github.com/ontio/ontology/smartcontract/service/native/ont"
 	"github.com/syndtr/goleveldb/leveldb"
 
 	"github.com/ontio/ontology/account"
@@ -442,4 +445,94 @@ func DieInRecovery(dir, image string, book *account.Account, shc uint32, which s
 		return false, err
 	}
 	return ierr != nil, nil
+}
+
+// ---- large blocks and the moment the state-store commit is entered ------------------------------------------------
+
+// FanTx builds ONE signed ONT transfer transaction with n transfer states from `from` to n fresh addresses (derived from
+// tag and the index): a block carrying it produces more than 2n state-store batch operations (balance and unbound-time
+// record per fresh address).
+func FanTx(from *account.Account, tag string, n int, amount uint64, nonce uint32) (*types.Transaction, error) {
+	var states []*ont.TransferState
+	for i := 0; i < n; i++ {
+		d := sha256.Sum256([]byte(fmt.Sprintf("c01-fan-%s-%d", tag, i)))
+		var to common.Address
+		copy(to[:], d[:20])
+		states = append(states, &ont.TransferState{From: from.Address, To: to, Value: amount})
+	}
+	code, err := cutils.BuildNativeInvokeCode(nutils.OntContractAddress, 0, "transfer", []interface{}{states})
+	if err != nil {
+		return nil, err
+	}
+	mt := utils.NewInvokeTransaction(0, 20000, code)
+	mt.Nonce = nonce
+	if err := utils.SignTransaction(from, mt); err != nil {
+		return nil, err
+	}
+	return mt.IntoImmutable()
+}
+
+// FanAddress is the i-th fresh address of FanTx.
+func FanAddress(tag string, i int) common.Address {
+	d := sha256.Sum256([]byte(fmt.Sprintf("c01-fan-%s-%d", tag, i)))
+	var to common.Address
+	copy(to[:], d[:20])
+	return to
+}
+
+var errDeath = fmt.Errorf("process dies on entering the state-store commit")
+
+// dyingStore forwards everything to the wrapped store until BatchCommit is called: then the data directory is copied as
+// it is at that moment and the commit fails (the batch is never written) — the process died on entering CommitTo.
+type dyingStore struct {
+	scom.PersistStore
+	dir, image string
+	fired      bool
+	copyErr    error
+}
+
+func (s *dyingStore) BatchCommit() error {
+	if !s.fired {
+		s.fired = true
+		s.copyErr = copyLive(s.dir, s.image)
+	}
+	return errDeath
+}
+
+// DieAtStateCommit opens the data directory, executes blk and submits it with the state store's PersistStore wrapped so
+// that the process "dies" at the moment stateStore.CommitTo is entered: image = the directory at that moment (whatever
+// reached the databases before the commit call is in it). Reflection only (the field is an interface), no hook in /repo.
+func DieAtStateCommit(dir, image string, book *account.Account, shc uint32, blk *types.Block) (died bool, err error) {
+	k, err := OpenAt(dir, book, shc)
+	if err != nil {
+		return false, err
+	}
+	defer k.SafeClose()
+	res, err := k.Ledger.ExecuteBlock(blk)
+	if err != nil {
+		return false, fmt.Errorf("execute: %v", err)
+	}
+	st, err := unexportedField(reflect.ValueOf(k.Store), "stateStore")
+	if err != nil {
+		return false, err
+	}
+	fld, err := unexportedField(st, "store")
+	if err != nil {
+		return false, err
+	}
+	orig, ok := fld.Interface().(scom.PersistStore)
+	if !ok {
+		return false, fmt.Errorf("stateStore.store is not a PersistStore")
+	}
+	hook := &dyingStore{PersistStore: orig, dir: dir, image: image}
+	fld.Set(reflect.ValueOf(scom.PersistStore(hook)))
+	defer fld.Set(reflect.ValueOf(orig))
+	func() {
+		defer func() { recover() }()
+		k.Ledger.SubmitBlock(blk, nil, res)
+	}()
+	if hook.copyErr != nil {
+		return false, hook.copyErr
+	}
+	return hook.fired, nil
 }
